@@ -171,3 +171,24 @@ def speckit_frame(tb):
         if os.path.abspath(fs.filename).startswith(root):
             hit = "%s:%d:%s" % (os.path.relpath(fs.filename, speckit_root()), fs.lineno, fs.name)
     return hit
+
+
+PLOT_KINDS = ["asd", "psd", "coh", "csd", "cf", "bode", None]
+
+
+def plot_quietly(res, which, errors=True, sigma=1, **kw):
+    """Draw a result (Agg backend, figure closed at once).  Whether the drawing itself succeeds is not a claim of any
+    property - refusals ('not available for this analysis type', no finite data, log axes of non-positive data) are
+    swallowed; what the checks look at is the result object afterwards."""
+    import warnings
+    import matplotlib.pyplot as plt
+    ok = True
+    with warnings.catch_warnings():
+        warnings.simplefilter("ignore")
+        try:
+            res.plot(which=which, errors=errors, sigma=sigma, **kw)
+        except Exception:  # noqa: BLE001
+            ok = False
+        finally:
+            plt.close("all")
+    return ok
